@@ -26,6 +26,9 @@ type SolveResult struct {
 	QueryTxt string
 	Insts    int
 	MaxSeconds float64
+	// thorough tier: every discharged query is re-run on a solver of a different family
+	CrossAgreed, CrossUnconfirmed int
+	CrossDisagree                 []string
 }
 
 // ---------- preparation ----------
@@ -1024,7 +1027,28 @@ func (j *queryJob) run(timeout int) {
 		timeout = o.Hints.Timeout
 	}
 	j.res = solveQuery(j.po.Queries[j.idx].Text, timeout, false)
+	if crossCheck && j.res.Status == "unsat" {
+		// second opinion from a different solver family (z3 <-> cvc5), short timeout
+		other := solvers[1]
+		if strings.HasPrefix(j.res.Solver, "cvc5") {
+			other = solvers[0]
+		}
+		st, out, secs := runSolver(context.Background(), other, j.po.Queries[j.idx].Text, crossTimeout)
+		j.res.Seconds += secs
+		switch st {
+		case "unsat":
+			j.res.CrossAgreed = 1
+		case "sat":
+			j.res.CrossDisagree = []string{other.Name + " answers sat where " + j.res.Solver + " answered unsat: " + firstLines(out, 2)}
+		default:
+			j.res.CrossUnconfirmed = 1
+		}
+	}
 }
+
+// crossCheck (thorough tier): cross-solver agreement on every discharged query
+var crossCheck bool
+var crossTimeout = 30
 
 // Collect aggregates the per-query results of an obligation.
 func (po *PreparedObl) Collect(js []*queryJob) {
@@ -1035,6 +1059,9 @@ func (po *PreparedObl) Collect(js []*queryJob) {
 		q := po.Queries[j.idx]
 		res.Queries++
 		res.Seconds += r.Seconds
+		res.CrossAgreed += r.CrossAgreed
+		res.CrossUnconfirmed += r.CrossUnconfirmed
+		res.CrossDisagree = append(res.CrossDisagree, r.CrossDisagree...)
 		if res.Solver == "" || r.Status != "unsat" {
 			res.Solver = r.Solver
 		}
